@@ -637,21 +637,62 @@ pub fn replay_main(checks: &[&'static dyn Check], path: &str) -> i32 {
         return 2;
     };
     if payload["kind"] == "case" {
-        // A crashed case: run it here, unprotected, so that the crash shows.
+        // A case whose worker did not survive (abort, stack overflow, OOM,
+        // hang): re-run it in a child process so that the crash is observed
+        // rather than shared.
         let idx = payload["case"].as_u64().unwrap_or(0);
-        let seed = payload["seed"].as_u64().unwrap_or(0);
-        let tier = Tier::parse(payload["tier"].as_str().unwrap_or("quick")).unwrap_or(Tier::Quick);
-        let c: &'static dyn Check = *check;
-        let r = crate::sim::on_big_stack(move || c.run_case(idx, seed, tier));
-        if r.violations.is_empty() {
-            println!("NOT REPRODUCED: case {idx} completed without a violation");
-            return 2;
+        let tier = payload["tier"].as_str().unwrap_or("quick").to_string();
+        let exe = std::env::current_exe().expect("current_exe");
+        let mut child = match Command::new(exe)
+            .arg("case")
+            .arg(check_id)
+            .arg(&tier)
+            .arg(idx.to_string())
+            .env("VERIF_CASE_SEED", payload["seed"].as_u64().unwrap_or(0).to_string())
+            .stdout(Stdio::null())
+            .stderr(Stdio::inherit())
+            .spawn()
+        {
+            Ok(c) => c,
+            Err(e) => {
+                eprintln!("harness error: cannot spawn child: {e}");
+                return 2;
+            }
+        };
+        let t0 = Instant::now();
+        loop {
+            match child.try_wait() {
+                Ok(Some(status)) => {
+                    use std::os::unix::process::ExitStatusExt;
+                    if let Some(sig) = status.signal() {
+                        println!("VIOLATION property={} replay={}", body["property"].as_str().unwrap_or("C01"), path);
+                        println!("  signature: process:killed by signal {sig}");
+                        return 1;
+                    }
+                    if status.code() == Some(0) {
+                        println!("NOT REPRODUCED: case {idx} completed in a fresh process");
+                        return 0;
+                    }
+                    println!("VIOLATION property={} replay={}", body["property"].as_str().unwrap_or("C01"), path);
+                    println!("  signature: process:exited with {:?}", status.code());
+                    return 1;
+                }
+                Ok(None) => {
+                    if t0.elapsed() > CASE_TIMEOUT {
+                        let _ = child.kill();
+                        let _ = child.wait();
+                        println!("VIOLATION property={} replay={}", body["property"].as_str().unwrap_or("C03"), path);
+                        println!("  signature: process:no answer within {} s", CASE_TIMEOUT.as_secs());
+                        return 1;
+                    }
+                    std::thread::sleep(Duration::from_millis(50));
+                }
+                Err(e) => {
+                    eprintln!("harness error: {e}");
+                    return 2;
+                }
+            }
         }
-        for v in &r.violations {
-            println!("VIOLATION property={} replay={}", v.property, path);
-            println!("  signature: {}", v.signature);
-        }
-        return 1;
     }
     let c: &'static dyn Check = *check;
     let payload = payload.clone();
